@@ -288,6 +288,25 @@ class TextDen:
 
 
 # =========================================================================================== comparison
+def _record_obs_comp(td, rec):
+    """NM-TRAN: on an observation record (EVID 0; without EVID: AMT = 0 and MDV = 0) a non-zero CMT item names the
+    compartment whose scaled amount is F; 0 / absent = the default observation compartment.  Dose and other-type
+    records and compartment numbers outside 1..n (output compartment, negative = switch off) are left to the default."""
+    cmt = rec.get("CMT")
+    if not cmt:
+        return None
+    if "EVID" in rec:
+        is_obs = rec["EVID"] == 0
+    else:
+        is_obs = not rec.get("AMT") and not rec.get("MDV")
+    if not is_obs:
+        return None
+    n = int(cmt)
+    if n != cmt or not 1 <= n <= td.n:
+        return None
+    return n
+
+
 def sample_theta(rng, th):
     """th: (init, lower, upper, fix)"""
     init, lo, hi, fix = th
@@ -455,12 +474,13 @@ def _compare_dynamic(td: TextDen, ird: IRDen, records, rng, K, c, prefix="", dos
         a = [rng.uniform(0.1, 50.0) for _ in range(td.n)]
         tenv = td.env(theta, eta, eps, rec, t)
         ienv = ird.env(theta, eta, eps, rec, t)
+        oc = _record_obs_comp(td, rec) if has_ode else None
         # ---- text side first: if the reference cannot evaluate the point it is redrawn
         try:
             if has_ode:
                 tpk = td.run_pk(tenv)
                 tfield = td.field(tpk, a, t)
-                terr = td.run_error(tpk, a, t)
+                terr = td.run_error(tpk, a, t, obs_comp=oc)
             else:
                 tpk = td.run_pred(tenv)
         except (R.RefError,):
@@ -490,7 +510,7 @@ def _compare_dynamic(td: TextDen, ird: IRDen, records, rng, K, c, prefix="", dos
                 tpk_p = td.run_pk(tenv_p)
                 a_p = [pert(x) for x in a]
                 tfield_p = td.field(tpk_p, a_p, t)
-                terr_p = td.run_error(tpk_p, a_p, t)
+                terr_p = td.run_error(tpk_p, a_p, t, obs_comp=oc)
                 CTX.use_mp()
                 if any(not close(x, y, 1e-11) for x, y in zip(tfield, tfield_p)):
                     rejected += 1
@@ -589,7 +609,7 @@ def _compare_dynamic(td: TextDen, ird: IRDen, records, rng, K, c, prefix="", dos
             if f_from_ir:
                 # delta check of the F link: force the text side's F to the model's value
                 try:
-                    terr_use = td.run_error(tpk, a, t, f_value=ierr.get("F"))
+                    terr_use = td.run_error(tpk, a, t, obs_comp=oc, f_value=ierr.get("F"))
                 except (R.RefError, R.RefUnbound):
                     last_err = "reject"
                     break
